@@ -1,6 +1,7 @@
 import LlgoVerif.Util
 import LlgoVerif.Model.CAbi
 import LlgoVerif.Spec.SysV
+import LlgoVerif.Spec.AAPCS64
 /-! Line-protocol driver for C09. One request per line, one answer per line.
 
     Types: `b h w q p f d` = i8 i16 i32 i64 ptr float double; `{..}` struct; `[N T]` array; `v` = no result.
@@ -12,6 +13,9 @@ import LlgoVerif.Spec.SysV
     sig R P..             model of transformFuncType: `ret=.. params=..`              (same format as harness/c09)
     place R P..           `impl=<placement> spec=<placement> eq=0|1 fits=0|1 nosplit=0|1 natural=0|1`
     siglegacy / placelegacy  the same with the legacy classifier
+    cls64 T | clsret64 T  model of TypeInfoArm64.GetTypeInfo: `<kind> size=S align=A n=N`
+    spec64 T              AAPCS64 class: `none` | `memory` | `gpr N` | `hfa N float|double`
+    judge64 arg|ret T <kind>   is the given arm64 pass kind what AAPCS64 prescribes?
     cstr DEST LEN HEX     CStrCopy into a dirty memory of LEN bytes at DEST, then StringFromCStr: `ok HEX` | `oob`
 -/
 open LlgoVerif LlgoVerif.Util LlgoVerif.CAbi LlgoVerif.SysV
@@ -138,6 +142,38 @@ def parseSig (ws : List String) : Option Sig :=
       if r = "v" then some ⟨none, pts⟩
       else (parseType r).map fun t => ⟨some t, pts⟩
 
+def kind64Name : PassKind64 → String
+  | .void => "void" | .direct => "direct" | .memory => "memory"
+  | .coerceInt b => "coerce i" ++ toString (b * 8)
+  | .coerceI64 => "coerce i64"
+  | .coerceI64x2 => "coerce a2i64"
+
+/-- parse a kind reported by the real arm64 classifier; `isRet` tells `coerce i64` of a result (`IntType(64)`) from a parameter's -/
+def parseKind64 (isRet : Bool) : List String → Option PassKind64
+  | ["void"] => some .void
+  | ["direct"] => some .direct
+  | ["memory"] => some .memory
+  | ["coerce", "a2i64"] => some .coerceI64x2
+  | ["coerce", ty] =>
+    match parseRegTy ty with
+    | some (.int b) => if isRet then some (.coerceInt b) else (if b = 8 then some .coerceI64 else none)
+    | _ => none
+  | _ => none
+
+def cls64Line (t : CType) (isRet : Bool) : String :=
+  let k := classifyArm64 t isRet
+  let kn := match k with
+    | .coerceInt b => "coerce i" ++ toString (b * 8)
+    | k => kind64Name k
+  s!"{kn} size={t.size} align={t.align} n={t.flatten.length}"
+
+def spec64Line (t : CType) : String :=
+  match AAPCS64.classify t.size t.elems with
+  | .none => "none"
+  | .memory => "memory"
+  | .gpr n => s!"gpr {n}"
+  | .hfa n d => s!"hfa {n} " ++ (if d then "double" else "float")
+
 def placeLine (i : Placement) (s : Sig) : String :=
   let p := place s
   s!"impl={placementName i} spec={placementName p} eq={b01 (decide (i = p))} fits={b01 (fitsInRegs s)} nosplit={b01 (noSplit s)} natural={b01 (decide ((∀ t ∈ s.ret, t.view.natural) ∧ ∀ t ∈ s.params, t.view.natural))} wf={b01 (decide ((∀ t ∈ s.ret, t.wf = true) ∧ ∀ t ∈ s.params, t.wf = true))}"
@@ -149,6 +185,13 @@ def handle (line : String) : String :=
   | ["clslegacy", t] => match parseType t with | some t => clsLine t false .legacy | none => "bad-op"
   | ["clsretlegacy", t] => match parseType t with | some t => clsLine t true .legacy | none => "bad-op"
   | ["spec", t] => match parseType t with | some t => specLine t | none => "bad-op"
+  | ["cls64", t] => match parseType t with | some t => cls64Line t false | none => "bad-op"
+  | ["clsret64", t] => match parseType t with | some t => cls64Line t true | none => "bad-op"
+  | ["spec64", t] => match parseType t with | some t => spec64Line t | none => "bad-op"
+  | "judge64" :: r :: t :: k =>
+    match parseType t, parseKind64 (r = "ret") k with
+    | some t, some k => if decide (AAPCS64.Sound k t.view) then "sound" else "unsound"
+    | _, _ => "bad-op"
   | "judge" :: t :: k =>
     match parseType t, parseKind k with
     | some t, some k => if decide (Sound k t.view) then "sound" else "unsound"
